@@ -58,9 +58,12 @@ CONSTANTS
     StartEnabled, \* set of initial values of recording_enabled
     MaxSteps, MaxPSteps, MaxRuns, MaxRecs,   \* steps per recorded run / per free-mode replay, runs, recordings
     Modes,        \* subset of {"same","edit","free"}
-    EditKinds,    \* subset of {"sent","drop","add","swap","result","raise"}
+    EditKinds,    \* subset of {"sent","drop","add","swap","result","raise","ctl"}
     InOpts,       \* sequence of option records for free-mode input calls
     OutOpts,      \* sequence of option records for free-mode output calls
+    FreeBodies,   \* free-mode replays: what the original of an input does *if it runs* (run-original on a missing key):
+                  \* subset of {"", "nestSame", "nestOther"} - nest*: it calls the intercepted input InnerCall itself,
+                  \* which is answered from the recording or fails with a missing key, but never runs live
     PlayFaults,   \* subset of {"unknown", "raise"}: play() of an id never saved / playback function raising
     FixF1, FixF2, FixF3, FixF10
 
@@ -308,6 +311,10 @@ Edits(p, e) ==
     \cup (IF "swap" \in EditKinds
           THEN {<<SwapAt(p, i), e>> : i \in {j \in 1 .. Len(p) - 1 : p[j].kind = "out" /\ p[j + 1].kind = "out"}}
           ELSE {})
+    \* the replayed code additionally calls discard_recording() / force_sample_recording(): no-ops while replaying, the
+    \* outputs it sends are those of p
+    \cup (IF "ctl" \in EditKinds
+          THEN {<<InsertAt(p, i, [Step0 EXCEPT !.kind = k]), e>> : i \in 1 .. Len(p) + 1, k \in {"discard", "force"}} ELSE {})
     \cup (IF "result" \in EditKinds THEN {<<p, <<"val", v>>>> : v \in Vals} ELSE {})
     \cup (IF "raise" \in EditKinds THEN {<<p, <<"exc", x>>>> : x \in Excs} ELSE {})
 
@@ -371,7 +378,8 @@ RProg == IF ctl.mode = "same" THEN Stored.prog ELSE ctl.rprog
 NextSteps ==
     IF ctl.phase # "play" THEN {}
     ELSE IF ctl.mode = "free"
-    THEN {[Step0 EXCEPT !.kind = "in", !.alias = c[1], !.arg = c[2], !.opt = i] : c \in InCalls, i \in 1 .. Len(InOpts)}
+    THEN {[Step0 EXCEPT !.kind = "in", !.alias = c[1], !.arg = c[2], !.opt = i, !.body = b] :
+              c \in InCalls, i \in 1 .. Len(InOpts), b \in FreeBodies}
          \cup {[Step0 EXCEPT !.kind = "out", !.alias = o, !.sent = v, !.opt = i] :
                   o \in OutAliases, v \in Vals, i \in 1 .. Len(OutOpts)}
          \cup {[Step0 EXCEPT !.kind = k] : k \in Ctl}
